@@ -1,12 +1,12 @@
 (* C04 — Minor-allele refinement preserves the major call and is optimal.
-   Only statements here; proofs are in proofs/MinorProofs.v.
+   Only statements here; proofs are in proofs/MinorProofs.v, MinorPointProofs.v, MinorSpecPointProofs.v.
 
    [gen c i] (theories/MinorModel.v) is the ILP of aldy/minor.py:solve_minor_model for the instance [i] (aldy's own
    Gene / Coverage / MajorSolution facts of one call); it is compared row by row with the LP the implementation hands to
    CBC on every run (harness/c04.py, structural tie).  The rule invariants below hold for EVERY feasible point [x] of it,
    for any number of candidate alleles, variants, sites, copies and read modes; selectors: [kA a] allele copy a selected,
    [kK a m] definition variant m kept on a, [kN a m] variant m added to a, [kPH a ri] read mode ri assigned to a. *)
-From Aldy Require Import Base Consts Lp MinorModel MinorSpec MinorProofs Consts_here Consts_wf Exprs_cov Tied_cov_minor.
+From Aldy Require Import Base Consts Lp MinorModel MinorSpec MinorProofs MinorPointProofs MinorSpecPointProofs Consts_here Consts_wf Exprs_cov Tied_cov_minor.
 Open Scope Q_scope.
 
 Theorem C04_consts_here_wf : consts_wf here = true.
@@ -156,24 +156,43 @@ Goal True. idtac "ASSUME C04_minor_objective". Abort.
 Print Assumptions C04_minor_objective.
 
 (* ---- optimality.
-   FULL STATEMENT (type-checked here as a Prop, NOT asserted): if x is a minimiser of the ILP (what CBC returns, solver
-   contract of C05), the assignment it denotes is admissible, the reported score is the score of that assignment, and no
-   admissible assignment scores lower. ---- *)
-Definition C04_minor_optimal_statement : Prop :=
-  forall c i x, consts_wf c = true -> inst_wf i = true -> feasible (gen c i) x ->
+   If x is a minimiser of the ILP (what CBC returns, solver contract of C05), the assignment it denotes (what minor.py
+   reads out of the solver) is admissible for the combinatorial specification MinorSpec, the reported score is exactly
+   the MinorSpec score of that assignment (tie-breaker included), and no admissible assignment over the instance's allele
+   copies scores lower.  Hypotheses: the decidable side conditions of the instance ([inst_wf], evaluated on every
+   instance of every run together with [0 <= i_phase], the profile's minor_phase weight); [over_copies i b] says that
+   the allele copies named by b are copies of the instance (the specification compares copies by identifier only).
+   Two halves, each for ANY number of candidates, copies, variants, sites and read modes:
+   C04_minor_point_spec (every feasible point denotes an admissible assignment whose score is at most the objective)
+   and C04_minor_spec_point (every admissible assignment is realised by a feasible point with objective = score). ---- *)
+Theorem C04_minor_optimal : forall c i x, inst_wf i = true -> 0 <= i_phase i -> feasible (gen c i) x ->
   (forall y, feasible (gen c i) y -> objective (gen c i) x <= objective (gen c i) y) ->
   admissible i (point_asg i x) = true /\
   (exists q, score c i true (point_asg i x) = Some q /\ q == objective (gen c i) x) /\
-  (forall b q, admissible i b = true -> score c i true b = Some q -> objective (gen c i) x <= q).
+  (forall b q, over_copies i b -> admissible i b = true -> score c i true b = Some q -> objective (gen c i) x <= q).
+Proof. exact minor_optimal. Qed.
+Goal True. idtac "ASSUME C04_minor_optimal". Abort.
+Print Assumptions C04_minor_optimal.
 
-(* PROVED PART: optimality over the feasible points of the ILP.  The reported score (objective at a minimiser) IS the
-   score of the minimiser's selector values, and no feasible point has selector values that score lower.
-   MISSING: (1) admissible assignment => feasible point with objective = MinorSpec.score (construction direction; the
-   harness builds that point with MinorSpec.point_of and has the kernel evaluate feasibleb / objective on every instance of
-   every run); (2) pt_score of a point = MinorSpec.score of the assignment it denotes (sum re-indexing + minimum over
-   phase assignments) and the rule-5/6/phase conjuncts of [admissible] for that assignment (its seven safety clauses are
-   C04_minor_point_clauses).  Both are covered by the behavioural tie (exhaustive MinorSpec.optimum vs CBC on every
-   instance small enough to enumerate). *)
+Theorem C04_minor_point_spec : forall c i x, feasible (gen c i) x -> inst_wf i = true -> 0 <= i_phase i ->
+  admissible i (point_asg i x) = true /\
+  exists q, score c i true (point_asg i x) = Some q /\ q <= pt_score c x i /\ q <= objective (gen c i) x.
+Proof. exact minor_point_spec. Qed.
+Goal True. idtac "ASSUME C04_minor_point_spec". Abort.
+Print Assumptions C04_minor_point_spec.
+
+Theorem C04_minor_spec_point : forall c i b, inst_wf i = true -> over_copies i b -> admissible i b = true ->
+  exists y q, feasible (gen c i) y /\ score c i true b = Some q /\ objective (gen c i) y == q.
+Proof. exact minor_spec_point. Qed.
+Goal True. idtac "ASSUME C04_minor_spec_point". Abort.
+Print Assumptions C04_minor_spec_point.
+
+(* the hypotheses are met by a non-trivial instance: the phased TOY witness and the assignment the solver reported *)
+Example C04_minor_optimal_example : inst_wf witness_p = true /\ 0 <= i_phase witness_p /\
+  over_copies witness_p (solver_asg witness_p witness_p_solver) /\ admissible witness_p (solver_asg witness_p witness_p_solver) = true.
+Proof. exact minor_optimal_example. Qed.
+
+(* an earlier, weaker form (kept: it needs no side condition): optimality over the selector values of feasible points *)
 Theorem C04_minor_optimal_partial : forall c i x, feasible (gen c i) x ->
   (forall y, feasible (gen c i) y -> objective (gen c i) x <= objective (gen c i) y) ->
   objective (gen c i) x == pt_score c x i /\ forall y, feasible (gen c i) y -> pt_score c x i <= pt_score c y i.
